@@ -25,7 +25,7 @@ ROWS = {
          "scheme (NewHash→Check→crypt.Check byte-for-byte under scripted entropy; BSDi integer coding; cost at the exported bound; unicode / ill-formed UTF-8 passwords for NT hash)",
          "KDF bodies and codec tied by correspondence"),
  "C02": ("C02.check_ok_iff (nil ⇔ Key's result re-encodes to the stored digest), error-return theorems, tampered_digest_never_ok; for EVERY scheme the documented password equivalence as a predicate, 'equivalent ⇒ same verdict' and 'both verify ⇒ equivalent ∨ a named collision of the primitive' (KdfProps.*_absorbs, C02b.des/desext/bcrypt/nthash/argon2_check_absorbs); desext_twin_checks, bcryptEquiv_coarser (the algorithm's equivalence is coarser than the wording: F16, F17)",
-         "T+H", "scheme (near-miss passwords under each scheme's equivalence, every digest-symbol substitution, the proved inherent equivalences replayed)", "the non-collision of the primitives is an explicit disjunct (a hypothesis, never an axiom)"),
+         "T: pipeline (FlowModel), Key tails and DES core (KdfIR2/DesIR *_key_tail_ir_eq_derive), codec (CodecIR/CodecIRU3) · H: the equivalence predicates are specifications", "scheme (near-miss passwords under each scheme's equivalence, every digest-symbol substitution, the proved inherent equivalences replayed)", "the non-collision of the primitives is an explicit disjunct (a hypothesis, never an axiom)"),
  "C03": ("model = reference written from the published algorithm, ∀ inputs (and ∀ hash function where generic): md5crypt_eq_spec, sha2crypt_eq_spec, C03b.sha1crypt_eq_spec, sunmd5_eq_spec(_wrap), nthash_eq_spec, bcrypt_eq_spec (+ bcrypt_long_password_deviation: the documented pre-2b ≥254-byte rule), descrypt/desext_layer_eq_spec, and C03b.encrypt_eq_fips: the table-driven DES (tables regenerated from const.go) = FIPS 46-3 DES with the crypt(3) salt swap for every 64-bit key and block",
          "T: all DES tables, permutation tables, and the KDF bodies of ALL ten schemes: md5-crypt / SHA-crypt / sha1-crypt / Permute (KdfIR) and descrypt.Key/EncodeInt/DecodeInt, desext.key/Key, des.Key, nthash.Key/encodePassword, the Sun MD5 coin-toss loop, bcrypt.Key/encode and every Key tail (KdfIR2: slot-based hash-transcript IR, closures lifted; regenerated = model for all inputs), and DES itself — permute816/1616, keySchedules, Encrypt (DesIR: regenerated = the table-driven model that C03b proves equal to FIPS 46-3; KdfIR2 re-instantiated with it, `_full`) · H: the hash/cipher primitives that live outside the repository (MD4/MD5/SHA/Blowfish/BLAKE2b in Lean)",
          "kdf (Go Key vs model) + xcrypt (Go vs the system's libxcrypt 4.4 via cgo, both directions)",
@@ -33,8 +33,8 @@ ROWS = {
  "C04": ("C04.key_eq_rfc (∀ P,S,p,T,m,t on 1≤p≤255, 8p≤m<2³²: model key = independent RFC 9106 reference), blake2bHash_eq_H', processBlock_eq_G, indexAlpha_eq_refIndex (regenerated kernel), roundedMemory_eq_rfc; Argon2IR.key_ir_eq_model / key_ir_eq_rfc: the regenerated Key (memory rounding, initHash, initBlocks, processBlocks with the lifted processSegment closure, processBlock(XOR)/blamkaGeneric with real pointer aliasing, extractKey) = the model = RFC 9106",
          "T: the whole purego path of argon2crypto (Argon2IR; BLAKE2b is the only opaque primitive, spec with proved witness), indexAlpha/phi kernels",
          "argon, purego:argon (Go ×3 code paths vs model vs RFC reference; H'; blocks; indexAlpha; lanes up to 255)", "amd64 assembly executed and compared, never modelled"),
- "C05": ("totality of every model function (structural/fuel recursion), parser never stores nil and never returns an empty group, KDF totality, alphabet indices < 64, C16Decode.decode_never_panics",
-         "T+H", "kdf + classify + parse + dispatch + b64 + stream + codec (outcome class incl. panic/timeout under recover + watchdog; bytes ≥ 0x80; lanes ≥ 64; a process-killing crash is reported with the pending operation)", "Go-side panics inside reflect/stdlib for inputs the model accepts are only sampled"),
+ "C05": ("totality of every model function (structural/fuel recursion), parser never stores nil and never returns an empty group, KDF totality, alphabet indices < 64, C16Decode.decode_never_panics; the regenerated programs never reach the interpreters' panic outcome on the property's domain (ParseFlow.parseFlow_never_panics, B64IR.decodeString_ir_never_panics, KdfIR/KdfIR2/DesIR/MiscIR equalities with total models)",
+         "T: parser, base64, KDF glue, DES, salt generators (the regenerated bodies) · H: panics inside reflect/strconv/stdlib", "kdf + classify + parse + dispatch + b64 + stream + codec (outcome class incl. panic/timeout under recover + watchdog; bytes ≥ 0x80; lanes ≥ 64; a process-killing crash is reported with the pending operation)", "Go-side panics inside reflect/stdlib for inputs the model accepts are only sampled"),
  "C06": ("Accept.unmarshal_eq_grammar_⟨S⟩ (Unmarshal accepts h with fields out ⇔ the independent recogniser Spec/Grammar.lean accepts h and reads those fields — all ten layouts, all strings), mismatch_only_when_wellformed, params_iff_unmarshal, C10.canonical_⟨S⟩, C14.guards_iff_accepts_⟨S⟩",
          "T: shapes, guards, pipeline (FlowModel), Unmarshal (CodecIRU3.unmarshal_eq_model, closed instances for the scheme structs)",
          "classify (every edit at distance 1, splices, wrap-around numbers, duplicated group members, last-symbol sweep, explicit versions, short strings); a class disagreement is a concrete misclassified string",
@@ -42,7 +42,7 @@ ROWS = {
  "C07": ("dispatcher refines a last-writer-wins map (check_refines_registry), prefix rule = lexer's prefix (prefixOf_none_iff_parse_error), builtins_registered / registrations_only_in_init over regenerated facts",
          "T: init registrations, Check and RegisterHash themselves (DispatchFlow: regenerated structured IR = model), lexPrefix", "dispatch", "sync.Map trusted"),
  "C08": ("conc_results_isolated / conc_race_free / conc_published_never_written for ANY thread count and schedule of the protocol model; alias_has_race (the repaired defect, in the model); registry theorems; shared_state_facts / no_late_global_writes (regenerated: the only sync/map/chan package variables are the two sync.Maps, used only through Load/Store/LoadOrStore)",
-         "T: shared-state facts · measured protocol facts (hook) · H",
+         "T: shared-state facts, RegisterHash/Check (DispatchFlow), the whole of getTypeInfo with typeCache as atomic steps (TypeCacheIR: interleaved_calls_return_the_cold_result, returned_record_is_private) · measured protocol facts (hook) · H: the footprint protocol model (Model/Conc.lean)",
          "race:conc (race detector; results vs sequential table; concurrent registrations of distinct prefixes), cache", "Go memory model, sync.Map, reflect; footprints are a hand abstraction"),
  "C09": ("refset_* on the regenerated indexAlpha; schedule_independent, complete_eq_sequential; C09Link.model_fill_eq_seqFill and key_eq_any_complete_schedule (the MODEL's own fill loop is the sequential run of the lane-task system: every family of complete schedules gives the model's key = RFC 9106 by C04); workers_joined_facts (regenerated go/WaitGroup structure of processBlocks)",
          "T: processBlocks with its go/WaitGroup pattern as a task/join node (Argon2IR.processBlocks_ir_eq_model, processSegment_ir_eq_model), indexAlpha, goroutine-structure facts",
